@@ -7,11 +7,11 @@ QUICK_BYTES = list(range(1, 0x20)) + [0x7F, 0x80, 0x9B, 0xA0, 0xFF, 0x5C, 0x2F, 
 
 def cases(thorough):
     bytes_ = list(range(1, 256)) if thorough else QUICK_BYTES
-    for field in ("inname", "name01", "path02", "target", "user", "group"):
+    for field in ("inname", "name01", "path02", "target", "user", "group", "user+group"):
         for b in bytes_:
             for pos in (0, 1, 2):
                 for kind in ("file", "dir", "link"):
-                    if field in ("user", "group") and kind != "file":
+                    if field in ("user", "group", "user+group") and kind != "file":
                         continue
                     if field == "target" and kind != "link":
                         continue
